@@ -105,7 +105,12 @@ func (conv *converter) ConvertFile(f *ast.File) *ir.File {
 		// stdlib packages are supported inside the bytecode.
 		switch importPath {
 		case "fmt", "strings", "strconv":
-			conv.addCustomImport(result, importPath)
+			// The declarations are compiled from a file of their own, where an import
+			// that only the rule groups use (strconv.IntSize as a filter operand)
+			// would be an unused one.
+			if conv.usedByCustomDecls(f, importPath) {
+				conv.addCustomImport(result, importPath)
+			}
 		}
 	}
 
@@ -201,6 +206,28 @@ func (conv *converter) addCustomDecl(dst *ir.File, decl ast.Decl) {
 	// The declarations are compiled from a buffer of their own;
 	// the directive makes the errors found there refer to this file.
 	dst.CustomDecls = append(dst.CustomDecls, fmt.Sprintf("//line %s:%d\n%s", begin.Filename, begin.Line, src))
+}
+
+// usedByCustomDecls reports whether a declaration that is handed over to the
+// bytecode compiler (anything but a rule group or an init func) refers to the imported package.
+func (conv *converter) usedByCustomDecls(f *ast.File, pkgPath string) bool {
+	used := false
+	for _, decl := range f.Decls {
+		if fn, ok := decl.(*ast.FuncDecl); ok {
+			if fn.Body == nil || fn.Name.String() == "init" || conv.isMatcherFunc(fn) {
+				continue
+			}
+		}
+		ast.Inspect(decl, func(n ast.Node) bool {
+			if id, ok := n.(*ast.Ident); ok {
+				if pkgName, ok := conv.types.Uses[id].(*types.PkgName); ok && pkgName.Imported().Path() == pkgPath {
+					used = true
+				}
+			}
+			return !used
+		})
+	}
+	return used
 }
 
 func (conv *converter) isMatcherFunc(f *ast.FuncDecl) bool {
